@@ -13,7 +13,7 @@ ASSUMPTIONS = [
     "tries are canonical oracle-built tries (hashed and mixed embedded/hashed nodes); only hashed nodes can be missing",
 ]
 BOUNDS = {
-    "quick": "every 2nd trie of the 64-trie family (32 tries) x {pruning, non-pruning} x {direct, inside squash_changes}; 6 operations x <=8 keys / <=12 paths; all subsets of missing nodes (lazily split); retry loop until success",
+    "quick": "every 2nd trie of the 64-trie family (32 tries) x {pruning, non-pruning} x {direct, inside squash_changes} + on every 4th trie a pruning trie freshly opened on the database (empty count table) with a two-write batch; 6 operations x <=8 keys / <=12 paths; all subsets of missing nodes (lazily split); retry loop until success",
     "thorough": "all 379 tries x 4 configurations",
 }
 OUTSIDE = "databases that fail other than by KeyError; nodes going missing between the retries; keys outside the pools"
@@ -31,6 +31,8 @@ def jobs(tier):
             continue
         for ci, (prune, batch) in enumerate(cfgs):
             out.append({"module": "vf.props.hexmiss", "fn": "h_missing", "cfg": dict(qbase, mi=mi, prune=prune, batch=batch), "pct": 2400, "ppt": 60})
+        if mi % 4 == 0 or tier != "quick":      # pruning trie freshly opened on the database (empty count table), operations inside a batch
+            out.append({"module": "vf.props.hexmiss", "fn": "h_missing", "cfg": dict(qbase, mi=mi, prune=True, batch=True, fresh=True, pre=True, ops=[2, 3]), "pct": 2400, "ppt": 60})
     out.append({"module": "vf.props.hexmiss", "fn": "r_missing", "cfg": dict(qbase, mi=n - 1, prune=False, batch=False), "pct": 600, "ppt": 60, "kind": "reach"})
     return out
 
